@@ -320,3 +320,60 @@ Proof.
   intros Hb. unfold column_index_cell. rewrite (xdiv_fin 0 b Hb).
   rewrite xdiv_zero_zero; [reflexivity| unfold Qdiv; ring | reflexivity].
 Qed.
+
+(* ------------------------------------------------------------------------------------ *)
+(** * the 3-D witness: rank of the table element <> its raw offset *)
+
+Definition c16_witness : survey :=
+  [ mkResp [ACat 0; ACat 0; ACat 0] 10;
+    mkResp [ACat 1; ACat 0; ACat 0] 1; mkResp [ACat 1; ACat 0; ACat 1] 1;
+    mkResp [ACat 1; ACat 1; ACat 0] 3; mkResp [ACat 1; ACat 1; ACat 1] 3 ].
+
+Lemma c16_refuted_proof :
+  let S := c16_witness in
+  let tv : tvar := Some (0, KCat, [true; false]) in
+  let mr := [false; false] in
+  let mc := [false; false] in
+  t_ok tv /\ 0 < t_n tv /\ wf_survey S /\ col_total S 2 (length mc) /\
+  ~ rank_is_offset tv 0 /\
+  (let V := slice_of tv 1 KCat mr 2 KCat mc S 0 in
+   column_index_cell (counts_of V CCat CCat 1 0)
+                     (column_bases_of V (nval mr) (length mrv) CCat CCat 1 0)
+                     (baseline_of (raw_slice_of tv 1 KCat mr 2 KCat mc S 0) (valid_idxs mr) (length mc) 3
+                                  false false 1 0)
+   = Inf false) /\
+  xmul (Fin 100%Q)
+    (xdiv (xdiv (Fin (wsum S (fun r => pop_of tv 0 r && in_el KCat mr (ans r 1) 1 && in_el KCat mc (ans r 2) 0)))
+                (Fin (wsum S (fun r => pop_of tv 0 r && ok_el KCat mr (ans r 1) 1 && in_el KCat mc (ans r 2) 0))))
+          (xdiv (Fin (wsum S (fun r => pop_of tv 0 r && in_el KCat mr (ans r 1) 1)))
+                (Fin (wsum S (fun r => pop_of tv 0 r && ok_el KCat mr (ans r 1) 1)))))
+  =x= Fin 100%Q.
+Proof.
+  cbv zeta. split; [left; reflexivity|]. split; [vm_compute; lia|].
+  split; [repeat constructor; discriminate|].
+  split; [intros r Hr; repeat (destruct Hr as [<- | Hr]; [reflexivity|]); destruct Hr|].
+  split; [vm_compute; discriminate|].
+  split; vm_compute; reflexivity.
+Qed.
+
+
+Lemma c16_refuted_witness :
+  exists (S : survey) (tv : tvar) (mr mc : list bool),
+    t_ok tv /\ 0 < t_n tv /\ wf_survey S /\ col_total S 2 (length mc) /\
+    ~ rank_is_offset tv 0 /\
+    (let V := slice_of tv 1 KCat mr 2 KCat mc S 0 in
+     column_index_cell (counts_of V CCat CCat 1 0)
+                       (column_bases_of V (nval mr) (length mrv) CCat CCat 1 0)
+                       (baseline_of (raw_slice_of tv 1 KCat mr 2 KCat mc S 0) (valid_idxs mr) (length mc) 3
+                                    false false 1 0)
+     = Inf false) /\
+    xmul (Fin 100%Q)
+      (xdiv (xdiv (Fin (wsum S (fun r => pop_of tv 0 r && in_el KCat mr (ans r 1) 1 && in_el KCat mc (ans r 2) 0)))
+                  (Fin (wsum S (fun r => pop_of tv 0 r && ok_el KCat mr (ans r 1) 1 && in_el KCat mc (ans r 2) 0))))
+            (xdiv (Fin (wsum S (fun r => pop_of tv 0 r && in_el KCat mr (ans r 1) 1)))
+                  (Fin (wsum S (fun r => pop_of tv 0 r && ok_el KCat mr (ans r 1) 1)))))
+    =x= Fin 100%Q.
+Proof.
+  exact (ex_intro _ c16_witness (ex_intro _ (Some (0, KCat, [true; false]))
+          (ex_intro _ [false; false] (ex_intro _ [false; false] c16_refuted_proof)))).
+Qed.
